@@ -44,6 +44,13 @@ struct Honest {
   output: [u8; 32],
   proof: Vec<u8>,
 }
+/// honest evaluation of a GIVEN request point (e.g. the neutral element, which no client produces)
+fn honest_point(w: &World, md: u8, point: &[u8; 32]) -> Result<Honest, String> {
+  let blinded = pt(point);
+  let ev = w.server.eval(&blinded, md, true).map_err(|e| e.to_string())?;
+  let proof = ev.proof.as_ref().ok_or("no proof")?.serialize_to_bincode().map_err(|e| e.to_string())?;
+  Ok(Honest { md, blinded: *point, output: *ev.output.as_bytes(), proof })
+}
 fn honest(w: &World, md: u8, input: &[u8]) -> Result<Honest, String> {
   let (blinded, _r) = pp::Client::blind(input);
   let ev = w.server.eval(&blinded, md, true).map_err(|e| e.to_string())?;
@@ -150,7 +157,16 @@ fn run_soundness(cx: &mut CaseCx, case: &Value) {
   let md = case["md"].as_u64().unwrap() as u8;
   let other_md = TAGS.iter().copied().find(|&t| t != md).unwrap();
   cx.entropy(300 + md as u64);
-  let h = honest(&w, md, b"input one").expect("honest");
+  let base_kind = case["base"].as_str().unwrap_or("client");
+  let h = match base_kind {
+    "identity" => honest_point(&w, md, &RistrettoPoint::identity().compress().to_bytes()),
+    "basepoint" => honest_point(&w, md, &G.compress().to_bytes()),
+    _ => honest(&w, md, b"input one"),
+  };
+  let h = match h {
+    Ok(h) => h,
+    Err(_) => return,
+  };
   let h_other_input = honest(&w, md, b"input two").expect("honest");
   let h_other_tag = honest(&w, other_md, b"input one").expect("honest");
   let h_other_server = honest(&w2, md, b"input one").expect("honest");
@@ -301,7 +317,7 @@ fn run_nonces(cx: &mut CaseCx, _case: &Value) {
   let w_clone = World { server: clone, pk: w.pk.clone(), pkb: w.pkb.clone() };
   let w_rest = World { server: restored, pk: w.pk.clone(), pkb: w.pkb.clone() };
   let w_clone2 = World { server: w_clone.server.clone(), pk: w.pk.clone(), pkb: w.pkb.clone() };
-  for round in 0..3 {
+  for round in 0..24 {
     for (b, md, label) in reqs.iter().take(8) {
       for (who, ww) in [("original", &w), ("clone", &w_clone), ("restored from exported state", &w_rest), ("clone of the clone", &w_clone2)] {
         issue(cx, &mut seen, ww, format!("{} by the {} server (round {})", label, who, round), b, *md);
@@ -516,8 +532,14 @@ pub fn spec() -> PropSpec {
       },
       Check {
         name: "soundness-matrix",
-        rule: "per tag: components {pk base point, pk tag point, input point, output point, c, s} x replacements {same component from another server / tag / request, neighbour (+G, +1, negation), identity / zero, a different component of the same evaluation, EVERY single-bit flip of the 32-byte encoding} plus tag-argument and whole-key substitutions: verify must be false in every cell; every tampered verification is preceded (and followed) by an honest one on the same thread, which must stay true",
-        gen: |_| TAGS.iter().map(|&t| json!({"md": t})).collect(),
+        rule: "per tag (honest client request; also honest evaluations of the neutral element and of the base point as request): components {pk base point, pk tag point, input point, output point, c, s} x replacements {same component from another server / tag / request, neighbour (+G, +1, negation), identity / zero, a different component of the same evaluation, EVERY single-bit flip of the 32-byte encoding} plus tag-argument and whole-key substitutions: verify must be false in every cell; every tampered verification is preceded (and followed) by an honest one on the same thread, which must stay true",
+        gen: |_| {
+          let mut v: Vec<Value> = TAGS.iter().map(|&t| json!({"md": t})).collect();
+          // the same matrix on honest evaluations of special request points
+          v.push(json!({"md": 7, "base": "identity"}));
+          v.push(json!({"md": 1, "base": "basepoint"}));
+          v
+        },
         run: run_soundness,
         min_counts: &[("tampering_rejected", 2000), ("rejected_at_load", 10)],
       },
@@ -528,7 +550,7 @@ pub fn spec() -> PropSpec {
         run: run_forgery,
         min_counts: &[],
       },
-      Check { name: "nonces", rule: "commitment s*G + c*PK recomputed for every proof issued (6 inputs x 4 tags x the identical request repeated 4 times; then the same requests answered in lockstep by the original server, a clone, a clone of the clone and a server restored from the exported state): pairwise distinct", gen: |_| vec![json!({})], run: run_nonces, min_counts: &[("proofs_issued", 90)] },
+      Check { name: "nonces", rule: "commitment s*G + c*PK recomputed for every proof issued (6 inputs x 4 tags x the identical request repeated 4 times; then the same requests answered in lockstep by the original server, a clone, a clone of the clone and a server restored from the exported state): pairwise distinct (about 860 proofs on one thread, more than any plausible per-thread pool)", gen: |_| vec![json!({})], run: run_nonces, min_counts: &[("proofs_issued", 90)] },
     ],
   }
 }
